@@ -331,6 +331,8 @@ class Interp:
                 base.store(k, v, self, t)
             elif isinstance(base, (list, dict, defaultdict)) and not isinstance(k, slice):
                 base[k] = v
+            elif isinstance(base, list) and isinstance(k, slice) and isinstance(v, (list, tuple)):
+                base[k] = list(v)  # `fields[:] = laid_out`: in-place replacement, the list object stays the same
             else:
                 self.fail(t, "subscript store")
         else:
@@ -373,14 +375,14 @@ class Interp:
                 return self.const_env[p]
             base = self.eval(e.value, env)
             if isinstance(base, Obj):
+                fi = self.prog.find_method(base._cls, e.attr) if base._cls is not None else None
+                # a property is a data descriptor: it shadows an instance attribute of the same name
+                if fi is not None and any(d.split(".")[-1] == "property" for d in fi.decorators):
+                    return self.call_method(fi, base, [])
                 if base.has(e.attr):
                     return base.get(e.attr)
-                if base._cls is not None:
-                    fi = self.prog.find_method(base._cls, e.attr)
-                    if fi is not None and any(d.split(".")[-1] == "property" for d in fi.decorators):
-                        return self.call_method(fi, base, [])
-                    if fi is not None:
-                        return ("bound", fi, base)
+                if fi is not None:
+                    return ("bound", fi, base)
                 self.fail(e, f"attribute {e.attr} of {base._clsname} not modelled")
             if isinstance(base, (set, list, dict, defaultdict)):
                 return ("cmeth", base, e.attr)
@@ -417,9 +419,9 @@ class Interp:
                 elif isinstance(op, ast.NotIn):
                     ok = not self._in(left, right, e)
                 elif isinstance(op, ast.Is):
-                    ok = left is right
+                    ok = self._same(left, right)
                 elif isinstance(op, ast.IsNot):
-                    ok = left is not right
+                    ok = not self._same(left, right)
                 elif isinstance(op, (ast.Lt, ast.Gt, ast.LtE, ast.GtE)) and all(isinstance(x, (int, float)) and not isinstance(x, bool) for x in (left, right)):
                     ok = {ast.Lt: left < right, ast.Gt: left > right, ast.LtE: left <= right, ast.GtE: left >= right}[type(op)]
                 else:
@@ -512,7 +514,16 @@ class Interp:
                          self.eval(e.step, env) if e.step is not None else None)
         self.fail(e, f"expression kind {type(e).__name__}")
 
+    @staticmethod
+    def _same(a, b) -> bool:
+        """identity: class attributes (enum members, class-level constants) are the same object when class and name agree"""
+        if isinstance(a, tuple) and isinstance(b, tuple) and a and b and a[0] == b[0] == "clsattr":
+            return a[1] is b[1] and a[2] == b[2]
+        return a is b
+
     def _eq(self, a, b, node):
+        if all(isinstance(x, tuple) and x and x[0] == "clsattr" for x in (a, b)):
+            return self._same(a, b)
         for x in (a, b):
             if not (isinstance(x, (Sym, str, bool, int)) or x is None):
                 self.fail(node, f"equality on {type(x).__name__}")
@@ -530,6 +541,24 @@ class Interp:
             nm = fn.id
             if nm in IGNORED_CALLS:
                 return None
+            if nm == "next" and len(e.args) == 1 and isinstance(e.args[0], ast.GeneratorExp) and len(e.args[0].generators) == 1 \
+                    and isinstance(e.args[0].generators[0].iter, ast.Call) and (_path(e.args[0].generators[0].iter.func) or "").split(".")[-1] == "count":
+                # next(<elt> for n in itertools.count(start) if <cond>): the first n that satisfies the conditions (searched lazily)
+                ge = e.args[0]
+                gen = ge.generators[0]
+                cargs = [self.eval(a, env) for a in gen.iter.args]
+                start = cargs[0] if cargs else 0
+                step = cargs[1] if len(cargs) > 1 else 1
+                if not all(isinstance(x, int) and not isinstance(x, bool) for x in (start, step)):
+                    self.fail(e, "itertools.count over non-integers")
+                i = start
+                for _ in range(100000):
+                    sub = dict(env)
+                    self.assign(gen.target, i, sub)
+                    if all(self.truth(self.eval(c, sub), c) for c in gen.ifs):
+                        return self.eval(ge.elt, sub)
+                    i += step
+                self.fail(e, "unbounded search over itertools.count")
             args = [self.eval(a, env) for a in e.args]
             ce = self.const_env.get(nm)
             if nm in env and isinstance(env[nm], tuple) and env[nm] and env[nm][0] in ("class", "pyfunc"):
@@ -578,6 +607,8 @@ class Interp:
                 return int(args[0])
             if nm == "bool":
                 return self.truth(args[0], e)
+            if nm == "str" and len(args) == 1 and (isinstance(args[0], (int, str)) or args[0] is None):
+                return str(args[0])
             self.fail(e, f"call of {nm}")
         if isinstance(fn, ast.Attribute):
             # logging is outside the model
